@@ -368,6 +368,18 @@ def c17(pid, tier, seed, workdir):
     out = os.path.join(workdir, "hash.ndjson")
     r, fails = run_probe(pid, bindir, "hash", [nb, seed], out, "HashTrace.tla", "release", seed)
     findings = report_probe_fails(pid, fails, seed, "hash", c17_key)
+    # reached states: after every capture and on a sample of other transitions the harness compares the
+    # state's (incrementally maintained) hash with the from-scratch hashes of all ~1400 single-feature neighbours
+    os.environ["VERIF_RECORD_C17"] = "1"
+    try:
+        shards = [("contact", 2500), ("contact", 2500), ("random", 2500), ("confined", 2500), ("diagrams", 2000), ("setup", 1500)]
+        if tier != "quick":
+            shards = [(d, n * 6) for d, n in shards] * 3
+        tres, tpaths = run_shards(pid, bindir, shards, seed, tier, workdir)
+    finally:
+        del os.environ["VERIF_RECORD_C17"]
+    reached = sum((x["counts"] + [0] * 24)[21] for x in tres)
+    log("[c17] %d reached states compared with all their single-feature neighbours" % reached)
     m = __import__("re").search(r'PAIRS (\d+)', r["out"])
     pairs = int(m.group(1)) if m else 0
     with open(out, encoding="utf-8") as f:
@@ -381,14 +393,16 @@ def c17(pid, tier, seed, workdir):
         return e
     cov = {
         "states": mc["distinct"] + r["lines"], "transitions": mc["generated"] + r["lines"],
-        "traces_validated_against_impl": 1,
-        "evaluations": pairs, "distinct_nontrivial": pairs,
+        "traces_validated_against_impl": 1 + len(tpaths),
+        "evaluations": pairs + reached * 1420, "distinct_nontrivial": pairs,
         "rule": "every unordered pair of states differing in exactly one hashed feature: per square all 78 pairs of the 13 contents, per piece kind all pairs of "
                 "(empty) squares, the two sides, the 6 step pairs, all pairs of the 641 push/pull statuses; enumerated completely on the empty base state "
                 "(234,311 pairs) and again on %d random legal base states; states built through PieceBoard::new / Zobrist::from_piece_board / PlayPhase::new / "
                 "GameState::new; the spec checks the groups are the feature universe and that hashes are pairwise distinct; count = pairs, measured by the spec" % (nb - 1),
         "samples": [trim(json.loads(lines[k])) for k in (0, 64, 76, 77, 78) if k < len(lines)],
         "exhaustive": True, "bases": nb,
+        "reached_states_checked_against_all_single_feature_neighbours": reached,
+        "traces_of_reached_states": len(tpaths),
     }
     return cov, TRUSTED[:3], findings
 
